@@ -14,6 +14,9 @@ func init() {
 			c.ruleCompactCanon("R-COMPACT/canon", "pkg/scale", "(*decodeState).decodeUint", "(*decodeState).decodeSmallInt")
 			c.min("R-COMPACT/canon", 6)
 			c.ruleBigIntCanon()
+			c.ruleBigSign("R-BIGSIGN", "pkg/scale")
+			c.ruleFreshElem("R-FRESHELEM", "pkg/scale")
+			c.min("R-FRESHELEM", 3)
 			c.ruleTagDefault("R-TAGDEFAULT", "pkg/scale", "(*decodeState).decodeBool", "(*decodeState).decodePointer", "(*decodeState).decodeResult")
 			c.min("R-TAGDEFAULT", 3)
 			c.notDecides("re-encoding of the decoded value equals the consumed prefix; nil dereference / failed type assertion panics")
@@ -33,6 +36,7 @@ func init() {
 			c.min("R-COMPACT/widths", 5)
 			c.ruleCompactEnc("R-COMPACT/enc")
 			c.min("R-COMPACT/enc", 4)
+			c.ruleBigSign("R-BIGSIGN", "pkg/scale")
 			c.ruleBigTrunc("R-BIGTRUNC", "pkg/scale", "(*encodeState).encodeBigInt")
 			c.min("R-BIGTRUNC", 4)
 			c.ruleCodecSwitchAgree("R-CODECSWITCH")
